@@ -409,7 +409,6 @@ func clip(b []byte) string {
 	return string(b)
 }
 
-
 // ---- concurrent first use of a WithLazy logger ---------------------------------------------------
 
 // evalM emits which evaluation of itself produced the output.
